@@ -855,6 +855,11 @@ func (c *deadlineContextWriter) writeContext(ctx context.Context, p []byte) (int
 		<-c.semaphore
 	}()
 
+	// select picks at random when both ctx.Done() and the semaphore are ready
+	if err := ctx.Err(); err != nil {
+		return 0, err
+	}
+
 	if c.timeout > 0 {
 		err := c.w.SetWriteDeadline(time.Now().Add(c.timeout))
 		if err != nil {
@@ -895,6 +900,8 @@ type writeRequest struct {
 	resultChan chan<- writeResult
 	// data to write.
 	data []byte
+	// ctx of the caller, a request whose context ended before the flush is not written.
+	ctx context.Context
 }
 
 type writeResult struct {
@@ -908,6 +915,12 @@ func (w *writeCoalescer) writeContext(ctx context.Context, p []byte) (int, error
 	wr := writeRequest{
 		resultChan: resultChan,
 		data:       p,
+		ctx:        ctx,
+	}
+
+	// select picks at random when both ctx.Done() and the send are ready
+	if err := ctx.Err(); err != nil {
+		return 0, err
 	}
 
 	select {
@@ -947,6 +960,11 @@ func (w *writeCoalescer) writeFlusherImpl(timerC <-chan time.Time, resetTimer fu
 	for {
 		select {
 		case req := <-w.writeCh:
+			if err := req.ctx.Err(); err != nil {
+				// the caller gave up before we started to write its frame
+				req.resultChan <- writeResult{err: err}
+				continue
+			}
 			buffers = append(buffers, req.data)
 			resultChans = append(resultChans, req.resultChan)
 			if !running {
